@@ -7,9 +7,10 @@ sys.path.insert(0, f"{ROOT}/harness")
 ALL = [f"C{i:02d}" for i in range(1, 20)]
 NOT_APPLICABLE = {}   # property -> reason, for properties the technique genuinely cannot decide (none so far)
 
+READY = [l.strip() for l in open(f"{ROOT}/harness/READY") if l.strip() and not l.startswith('#')]   # accepted checks only
 checks, na = [], []
 for pid in ALL:
-    if not os.path.exists(f"{ROOT}/harness/{pid.lower()}.py"):
+    if pid not in READY or not os.path.exists(f"{ROOT}/harness/{pid.lower()}.py"):
         na.append({'property_id': pid, 'reason': NOT_APPLICABLE.get(pid, 'not claimed in this commit: model/theorems/correspondence for it are not built yet (construction order in DESIGN.md section 10)')})
         continue
     P = importlib.import_module(pid.lower())
